@@ -239,6 +239,25 @@ func (m *c10Model) sortMethods() map[*FuncInfo]*c10SortSite {
 				case *ast.Ident:
 					if f, ok := m.info.Uses[l].(*types.Func); ok {
 						site.lessFn = m.funcInfoOf(f)
+					} else if v, ok := m.info.Uses[l].(*types.Var); ok {
+						// a local holding the less literal: `less := func(i, j int) bool {...}` (single definition)
+						defs := 0
+						ast.Inspect(ds.fi.Decl.Body, func(nd ast.Node) bool {
+							as, ok := nd.(*ast.AssignStmt)
+							if !ok || len(as.Lhs) != len(as.Rhs) {
+								return true
+							}
+							for i, lh := range as.Lhs {
+								if id, ok := lh.(*ast.Ident); ok && (m.info.Defs[id] == types.Object(v) || m.info.Uses[id] == types.Object(v)) {
+									defs++
+									site.less, _ = ast.Unparen(as.Rhs[i]).(*ast.FuncLit)
+								}
+							}
+							return true
+						})
+						if defs != 1 {
+							site.less = nil
+						}
 					}
 				}
 			}
